@@ -40,7 +40,7 @@ def vectors(rng, commands, tier):
         if c in EXCLUDE:
             continue
         name = c.encode()
-        timeouts = [b"0.05", b"-1", b"abc", b""]
+        timeouts = [b"0.05", b"-1", b"abc", b"", b"0.000000001", b"1e-10", b"5e-324", b"0.000000004", b"1e-7", b"nan", b"inf", b"-0.5"]
         vecs.append([name])
         for k in KEYS + [b""]:
             vecs.append([name, k])
